@@ -7,13 +7,13 @@ EXTENDS StackedTable, TLC, Json
 
 CONSTANTS Keys, Writers, PutSets, MaxSaves, MaxGets, Bug
 
-VARIABLES heads, tbl, saved, sqviews, nv, ngets, hist
-vars == <<heads, tbl, saved, sqviews, nv, ngets>>
+VARIABLES heads, tbl, saved, sqentries, nv, ngets, hist
+vars == <<heads, tbl, saved, sqentries, nv, ngets>>
 
 Orders(S) == {s \in [1..Cardinality(S) -> S] : \A i, j \in 1..Cardinality(S) : s[i] = s[j] => i = j}
 
 Init == /\ heads = {} /\ tbl = [w \in Writers |-> NoSeg]
-        /\ saved = <<>> /\ sqviews = {} /\ nv = 1 /\ ngets = 0 /\ hist = <<>>
+        /\ saved = <<>> /\ sqentries = {} /\ nv = 1 /\ ngets = 0 /\ hist = <<>>
 
 GetHead(w) ==
   /\ ngets < MaxGets
@@ -24,8 +24,7 @@ GetHead(w) ==
                          THEN HeadsAfterSave(heads, order[1], t) \ {order[i] : i \in 2..Len(order)}
                     ELSE GetHeadHeads(heads, order)
         /\ tbl' = [tbl EXCEPT ![w] = t]
-        /\ sqviews' = IF Len(order) > 1 /\ t # order[1] /\ t.parent # order[1]
-                      THEN sqviews \cup {[k \in Keys |-> Lookup(t, k)]} ELSE sqviews
+        /\ sqentries' = IF Len(order) > 1 THEN sqentries \cup FoldedEntries(order[1], t) ELSE sqentries
   /\ ngets' = ngets + 1
   /\ hist' = Append(hist, [op |-> "gethead", w |-> w, ks |-> <<>>, v |-> 0])
   /\ UNCHANGED <<saved, nv>>
@@ -43,7 +42,7 @@ PutSave(w, K) ==
                                   squashed |-> (t.parent # tbl[w]),
                                   after |-> [k \in Keys |-> Lookup(t, k)]])
        /\ tbl' = [tbl EXCEPT ![w] = t]
-       /\ sqviews' = IF t.parent # tbl[w] THEN sqviews \cup {[k \in Keys |-> Lookup(tbl[w], k)]} ELSE sqviews
+       /\ sqentries' = sqentries \cup FoldedEntries(tbl[w], t)
   /\ nv' = nv + Cardinality(K)
   /\ hist' = Append(hist, [op |-> "putsave", w |-> w, ks |-> SetToSeq(K), v |-> nv])
   /\ UNCHANGED ngets
@@ -61,7 +60,7 @@ AllSavedFound == Merged => AllSavedFoundIn(saved, Look)
 LaterWins == Merged => \A k \in Keys : LaterWinsIn(saved, Look, k)
 (* every violation of LaterWins in the model has the known shape *)
 LaterWinsExceptKnown ==
-  Merged => \A k \in Keys : LaterWinsIn(saved, Look, k) \/ SquashHidesAncestry(sqviews, k, Look[k])
+  Merged => \A k \in Keys : LaterWinsIn(saved, Look, k) \/ SquashHidesAncestry(sqentries, k, Look[k])
 HeadsNeverLost == (Len(saved) > 0) => heads # {}
 (* a writer's saved table shows its base view overlaid with its puts *)
 SaveView == \A i \in 1..Len(saved) : SaveViewOK(saved[i].seen, saved[i].puts, saved[i].after, Keys)
